@@ -55,7 +55,7 @@ def describe(meta, fname, t):
     if kind in (2, 3):
         op = "Copy" if kind == 2 else "Clone"
         why = {8: "returns a value outside the universe / panics", 9: "is missing for a cloneable kind"}.get(
-            j, "result is not identical (bits hash-equal=1, compares-equal=2, independent-storage=4: got %d)" % j)
+            j, "result is not identical (bits hash-equal=1, compares-equal=2, independent-storage=4, hash-follows-content-after-nested-in-place-change=8: got %d)" % j)
         return {"key": "%s%d|%s" % (pre, kind, val(i)), "value": val(i), "mkind": kind, "kinds": [K[i] if i < len(K) else ""],
                 "what": "%s of %s %s" % (op, val(i), why), "theorem": "C08.copy_identity / clone_identity"}
     if kind >= 10:
